@@ -1,13 +1,68 @@
 """C18 — packet buffers are unique, released exactly once, and bounded (DESIGN §5 C18)."""
-import itertools
+import copy, itertools
 import common, poxenv
 from common import Check
 
 def frame(i, n):
-    """a distinguishable Ethernet frame of n >= 14 bytes"""
-    hdr = bytes([0, 0, 0, 0, 0, (i % 250) + 2, 0, 0, 0, 0, 0, 1]) + bytes([0x88, 0xb5])      # local experimental ethertype
+    """a distinguishable Ethernet frame of n >= 14 bytes (distinct for distinct i < 250 * 65536, whatever n)"""
+    hdr = bytes([0, 0, 0, ((i // 250) >> 8) & 0xff, (i // 250) & 0xff, (i % 250) + 2, 0, 0, 0, 0, 0, 1]) + bytes([0x88, 0xb5])      # local experimental ethertype
     body = bytes((i * 7 + k) & 0xff for k in range(max(0, n - 14)))
     return hdr + body
+
+def mac(b):
+    return bytes([2, 0, 0, 0, 0, b & 0xff])
+
+def rewrite(fr, rws):
+    """what set_dl_src / set_dl_dst do to a frame: [["src"|"dst", b], ...] applied in order"""
+    fr = bytearray(fr)
+    for which, b in rws or ():
+        if which == "src": fr[6:12] = mac(b)
+        else: fr[0:6] = mac(b)
+    return bytes(fr)
+
+def descents(n):
+    """smaller values to try for a size parameter: half, then ever smaller steps down to n-1"""
+    seen, d = set(), max(n // 2, 1)
+    while d >= 1:
+        v = n - d
+        if 0 <= v < n and v not in seen:
+            seen.add(v); yield v
+        d //= 2
+
+def expand(case):
+    """primitive ops of a case.  Macro ops stand for many primitives: `fill` = n arrivals of consecutive frames, `userefs` = a
+    release for each of a range of earlier outputs.  A primitive names its buffer either literally ("id") or as "r": the index of
+    the earlier primitive whose packet-in handed the id out (0 when that one handed none out) — "ref": [m, k] in the case is the
+    k-th primitive of case op m."""
+    prims, base, count = [], [], []
+    for op in case["ops"]:
+        base.append(len(prims))
+        if op["op"] == "fill":
+            for k in range(op["n"]):
+                prims.append({"op": "arrive", "i": op["i"] + k, "len": op.get("len", 14), "port": op.get("port", 1), "dl": op.get("dl")})
+        elif op["op"] == "userefs":
+            for k in range(op["from"], op["to"], op.get("step", 1) or 1):
+                p = {"op": op.get("as", "use"), "ref": [op["of"], k], "via": op.get("via", "po")}
+                if p["op"] == "usectl": p["dl"] = op.get("dl", 0)
+                if "fmk" in op: p["fmk"] = op["fmk"]
+                prims.append(p)
+        else:
+            prims.append(dict(op))
+        count.append(len(prims) - base[-1])
+    for n, p in enumerate(prims):
+        if "ref" in p:
+            m, k = p["ref"]
+            ok = isinstance(m, int) and isinstance(k, int) and 0 <= m < len(base) and 0 <= k < count[m] and base[m] + k < n
+            p["r"] = base[m] + k if ok else None
+    return prims
+
+def bid_of(o):
+    return o["bid"] if (isinstance(o, dict) and o.get("k") == "pin" and o.get("bid") is not None) else 0
+
+def op_id(p, outs):
+    if "ref" in p: return bid_of(outs[p["r"]]) if p.get("r") is not None else 0
+    return p["id"]
+
 
 class C18(Check):
     id = "C18"
@@ -15,37 +70,112 @@ class C18(Check):
     lean_targets = ["drv_c18"]
     driver = "drv_c18"
     theorems = ["Pox.C18.reachable_inv", "Pox.C18.bounded", "Pox.C18.unique_live", "Pox.C18.use_once", "Pox.C18.packet_in_form", "Pox.C18.unbuffered_iff_full", "Pox.C18.use_to_controller",
-                "Pox.C18.refines_step", "Pox.C18.refines", "Pox.C18.refines_init", "Pox.C18.spec_step_sound"]
+                "Pox.C18.refines_step", "Pox.C18.refines", "Pox.C18.refines_init", "Pox.C18.spec_step_sound",
+                "Pox.C18.fill_ids_distinct", "Pox.C18.fill_all_buffered", "Pox.C18.held_frame_fixed"]
     anchors = [("pox/datapaths/switch.py", "SoftwareSwitchBase.send_packet_in"), ("pox/datapaths/switch.py", "SoftwareSwitchBase._buffer_packet"),
-               ("pox/datapaths/switch.py", "SoftwareSwitchBase._process_actions_for_packet_from_buffer"), ("pox/datapaths/switch.py", "SoftwareSwitchBase._rx_packet_out")]
+               ("pox/datapaths/switch.py", "SoftwareSwitchBase._process_actions_for_packet_from_buffer"), ("pox/datapaths/switch.py", "SoftwareSwitchBase._rx_packet_out"),
+               ("pox/datapaths/switch.py", "SoftwareSwitchBase._rx_flow_mod")]
     design_ref = "DESIGN.md §5 C18"
     technique = "Lean 4 proof (invariant over all operation histories tying the ids handed to the controller to the slot list) + differential correspondence through the byte-level switch connection"
     level_text = ("Refinement (refines_step/refines/refines_init): every history of the buffer code is a history of the abstract specification SpecStep — a map from outstanding ids to frames in which a new buffer gets any unused non-zero id while fewer than max are outstanding, a full pool answers with the whole frame and no id, an outstanding id is released exactly once with its own frame, any other id does nothing — with the controller's view as abstraction map; spec_step_sound: the specification itself never exceeds max and never reuses an outstanding id. "
                   "Theorems reachable_inv/bounded/unique_live/use_once/packet_in_form hold for every history of arrivals, buffer uses and set-config, every pool size and frame: "
                   "stored packets never exceed max_buffers, an id handed out was not outstanding, using an outstanding id emits exactly its frame once, any other id emits nothing, "
                   "packet-in carries the true total length and either the whole frame without id (pool full) or the first miss_send_len/max_len bytes. "
-                  "Each run re-checks the hand-written model against the real SoftwareSwitch over real OpenFlow bytes on exhaustive short histories and random histories to length 60.")
+                  "fill_all_buffered/fill_ids_distinct: n <= max arrivals in a row into an empty pool are all buffered, under pairwise different ids (any n, any max); held_frame_fixed: whatever happens in between, "
+                  "as long as an id is not used it stays tied to the frame it was handed out for. "
+                  "Each run re-checks the hand-written model against the real SoftwareSwitch over real OpenFlow bytes on exhaustive short histories, random histories to length 60 and pools of 255..1000 buffers filled completely.")
     level_note = ("Trusted: Lean kernel, standard axioms, hand-written Model/BufPool.lean, harness/swnet.py. Actions applied to a released packet are abstracted to 'emit frame' "
-                  "(what actions do to a frame is C12); the harness releases with a single output:IN_PORT action so the stored ingress port is observable.")
+                  "(what actions do to a frame is C12); the harness releases with a single output:IN_PORT action so the stored ingress port is observable. "
+                  "Rewrites before/after an output:CONTROLLER action are limited to set_dl_src/set_dl_dst (six bytes replaced), which the harness computes itself.")
     trusted_base = ["model Model/BufPool.lean hand-written from switch.py _buffer_packet/_process_actions_for_packet_from_buffer/send_packet_in; tied by this correspondence run"]
     assumptions = ["single-threaded datapath (cooperative tasks): buffer operations are not interleaved",
                    "the action list a buffer release runs does not raise: _process_actions_for_packet_from_buffer clears the slot after the actions ran, without try/finally, so a raising action handler would leave the id usable again (whether an action can raise on a well-formed request is C12's subject)",
                    "frames used by the harness parse as Ethernet (>= 14 bytes)",
-                   "the pool stores the parsed ethernet object and emission re-packs it, the model stores bytes: they agree where pack(parse(frame)) = frame (C14's round trip; C12-3/C12-4 are the known exceptions)",
-                   "release towards the controller is modelled for ONE output:CONTROLLER in the action list (op usectl); an action list with several CONTROLLER outputs, or output:TABLE causing a further table miss while the old slot is occupied, is not an op of the model (the pool bound `bounded` does not depend on it: alloc never exceeds max)"]
-    rule = ("case = (max_buffers 0..4, miss_send_len, history over {miss arrival, output:CONTROLLER(max_len) arrival, packet_out(buffer id), flow_mod(buffer id), the same with an empty action list (drop), "
-            "stale/bogus/zero ids, set_config, a flow_mod WITHOUT buffer id installing an entry that covers an ingress port, a flow_mod naming a buffer that is refused (unknown command / unsupported action) (model: `other`, pool untouched)}); corpus = all histories of length <= 4 over a 12-op alphabet with pool sizes 0..2; non-trivial = some id is handed out and later used, or the pool fills")
+                   "the pool stores a parsed ethernet object and emission re-packs it, the model stores bytes: they agree where pack(parse(frame)) = frame (C14's round trip; C12-3/C12-4 are the known exceptions) and where nothing changes the stored object between buffering and release (which is what the rewrite-after-buffering histories test)",
+                   "release towards the controller is modelled for ONE output:CONTROLLER in the action list (op usectl); an action list with several CONTROLLER outputs, or output:TABLE causing a further table miss while the old slot is occupied, is not an op of the model (the pool bound `bounded` does not depend on it: alloc never exceeds max)",
+                   "a flow_mod with a DELETE command that names a buffer is not an op (OpenFlow 1.0 gives buffer_id no meaning there; the property is silent)"]
+    rule = ("case = (max_buffers 0..4 or 129..1000 (thorough: ..4097), miss_send_len, optional flow-table capacity, history over {miss arrival, output:CONTROLLER(max_len) arrival — by packet_out or by a flow entry, with set_dl_* rewrites before and after the "
+            "CONTROLLER action —, packet_out(buffer id), flow_mod(buffer id) in every flavour (ADD / MODIFY / MODIFY_STRICT, and REFUSED ones: table full, CHECK_OVERLAP conflict, EMERG in its three spellings), the same with an "
+            "empty action list or an output to a port that does not exist (drop), release to the controller again (with rewrites after it), stale/bogus/zero ids, ids named literally or as 'the id handed out by step k', set_config, a flow_mod WITHOUT "
+            "buffer id installing an entry that covers an ingress port, a flow_mod naming a buffer that is refused BEFORE it is carried out (unknown command / unsupported action) (model: `other`, pool untouched)}); "
+            "corpus = all histories of length <= 4 over a 12-op alphabet with pool sizes 0..2, all of length <= 3 over a 10-op flow_mod-flavour alphabet with table capacities 0/1/unlimited, rewrite-after-buffering histories, "
+            "pools of 129/255/256/257/300/1000 (thorough: to 4097) filled to max+1 and emptied in several orders; non-trivial = some id is handed out and later used, or the pool fills")
 
     def setup(self):
         poxenv.boot()
         import swnet, pox.openflow.libopenflow_01 as of
-        self.swnet, self.of = swnet, of
+        from pox.lib.addresses import EthAddr
+        self.swnet, self.of, self.EthAddr = swnet, of, EthAddr
+        self._noslots = False
+        self.stats = {"refused_flow_mods_naming_a_live_buffer": 0, "largest_number_outstanding": 0, "releases_after_later_rewrite": 0}
 
     ALPHA = [{"op": "arrive", "i": 0, "len": 20, "port": 1, "dl": None}, {"op": "arrive", "i": 1, "len": 14, "port": 2, "dl": 3},
              {"op": "use", "id": 1, "via": "po"}, {"op": "use", "id": 2, "via": "fm"}, {"op": "use", "id": 0, "via": "po"},
              {"op": "use", "id": 3, "via": "po"}, {"op": "setmiss", "n": 16}, {"op": "usectl", "id": 1, "dl": 7, "via": "po"},
              {"op": "drop", "id": 1, "via": "po"}, {"op": "use", "id": 1, "via": "pod"}, {"op": "install", "inport": 2, "out": 4},
              {"op": "fmbad", "id": 1, "why": "cmd"}]
+
+    # flow_mods that NAME a buffer, in every flavour — accepted, turned into an add, or refused by the table operation (which of
+    # these it is depends on the table capacity `entries` and on what `install` put there); a plain packet_out for contrast
+    FMALPHA = [{"op": "arrive", "i": 0, "len": 20, "port": 1, "dl": None}, {"op": "arrive", "i": 1, "len": 14, "port": 2, "dl": 3},
+               {"op": "use", "id": 1, "via": "fm", "fmk": "emerg"}, {"op": "use", "id": 2, "via": "fm", "fmk": "ovl"},
+               {"op": "drop", "id": 1, "via": "fm", "fmk": "emerg_to"}, {"op": "usectl", "id": 1, "dl": 7, "via": "fm", "fmk": "add"},
+               {"op": "use", "id": 1, "via": "fm", "fmk": "mods"}, {"op": "install", "inport": 2, "out": 4},
+               {"op": "use", "id": 1, "via": "po"}, {"op": "use", "id": 2, "via": "fm", "fmk": "emerg_rem"}]
+    FMK = ["add", "mod", "mods", "ovl", "emerg", "emerg_to", "emerg_rem"]
+    BIG = (129, 255, 256, 257, 300, 1000)
+
+    def big_cases(self, mx, patterns=(0, 1, 2)):
+        """a pool of mx buffers filled to max + 1 outstanding packets, then emptied"""
+        fill = {"op": "fill", "n": mx + 1, "i": 0, "len": 14, "port": 1, "dl": None}
+        out = []
+        if 0 in patterns:        # oldest first; then three more arrivals (ids are used again), the last of them released
+            out.append({"max": mx, "miss": 5, "ops": [fill, {"op": "userefs", "of": 0, "from": 0, "to": mx + 1, "via": "po"},
+                                                      {"op": "fill", "n": 3, "i": mx + 1, "len": 15, "port": 2, "dl": 6},
+                                                      {"op": "use", "ref": [2, 2], "via": "fm"}, {"op": "use", "ref": [0, mx - 1], "via": "po"}]})
+        if 1 in patterns:        # newest first
+            out.append({"max": mx, "miss": 5, "ops": [fill, {"op": "userefs", "of": 0, "from": mx, "to": -1, "step": -1, "via": "po"}]})
+        if 2 in patterns:        # every other one, refill the holes (+1), then everything that is outstanding, newest first
+            out.append({"max": mx, "miss": 0, "ops": [fill, {"op": "userefs", "of": 0, "from": 1, "to": mx, "step": 2, "via": "po"},
+                                                      {"op": "fill", "n": mx // 2 + 1, "i": mx + 1, "len": 16, "port": 3, "dl": None},
+                                                      {"op": "userefs", "of": 2, "from": mx // 2, "to": -1, "step": -1, "via": "po"},
+                                                      {"op": "userefs", "of": 0, "from": 0, "to": mx, "step": 2, "via": "fm", "fmk": "emerg"}]})
+        return out
+
+    def alias_cases(self):
+        """a packet is buffered for the controller and LATER actions of the same list rewrite it: the id stays tied to the packet as announced"""
+        out = []
+        rel = [{"op": "use", "ref": [0, 0], "via": "po"}, {"op": "use", "ref": [0, 0], "via": "fm"}]
+        for how in ("po", "entry"):
+            for pre in ([], [["dst", 9]]):
+                for post in ([["src", 7]], [["dst", 8]], [["src", 7], ["dst", 8]]):
+                    for dl in (0, 10, 65535):
+                        for outp in (2, None):
+                            a = {"op": "arrive", "i": 3, "len": 20, "port": 1, "dl": dl, "how": how, "rw": {"pre": pre, "post": post, "out": outp}}
+                            for r in rel:
+                                out.append({"max": 2, "miss": 5, "ops": [a, r, r]})
+                    # no buffer free: nothing is stored, the packet-in carries the whole (so far rewritten) frame
+                    out.append({"max": 0, "miss": 5, "ops": [{"op": "arrive", "i": 3, "len": 20, "port": 1, "dl": 4, "how": how, "rw": {"pre": pre, "post": post, "out": 2}},
+                                                             {"op": "use", "id": 1, "via": "po"}]})
+        # a table miss from inside an action list (packet_out to the TABLE), rewritten by the actions after it
+        for pre in ([], [["src", 3]]):
+            for post in ([["src", 7]], [["dst", 8], ["src", 2]]):
+                a = {"op": "arrive", "i": 6, "len": 20, "port": 2, "dl": None, "rw": {"pre": pre, "post": post, "out": 3}}
+                for r in rel:
+                    out.append({"max": 2, "miss": 5, "ops": [a, r, r]})
+                out.append({"max": 2, "miss": 5, "ops": [a, {"op": "usectl", "id": 1, "dl": 65535, "via": "po"}, {"op": "use", "ref": [1, 0], "via": "po"}]})
+                out.append({"max": 0, "miss": 5, "ops": [a, {"op": "use", "id": 1, "via": "po"}]})
+        # released to the controller again, rewritten after that, then released for good; and two packets rewritten differently
+        for post in ([["src", 7]], [["dst", 8], ["src", 5]]):
+            for outp in (1, 3, None):
+                out.append({"max": 2, "miss": 5, "ops": [{"op": "arrive", "i": 4, "len": 20, "port": 1, "dl": None},
+                                                         {"op": "usectl", "id": 1, "dl": 6, "via": "po", "rw": {"post": post, "out": outp}},
+                                                         {"op": "use", "ref": [1, 0], "via": "po"}, {"op": "use", "id": 1, "via": "po"}]})
+                out.append({"max": 3, "miss": 5, "ops": [{"op": "arrive", "i": 4, "len": 20, "port": 1, "dl": 9, "rw": {"pre": [], "post": post, "out": 2}},
+                                                         {"op": "arrive", "i": 5, "len": 30, "port": 2, "dl": 0, "how": "entry", "rw": {"pre": [["src", 3]], "post": [["src", 4]], "out": outp}},
+                                                         {"op": "usectl", "ref": [0, 0], "dl": 65535, "via": "fm", "fmk": "emerg", "rw": {"post": [["dst", 6]], "out": 4}},
+                                                         {"op": "use", "ref": [1, 0], "via": "po"}, {"op": "use", "ref": [2, 0], "via": "po"}, {"op": "use", "ref": [0, 0], "via": "po"}]})
+        return out
 
     def corpus(self):
         cases = []
@@ -54,46 +184,155 @@ class C18(Check):
                 if L == 4 and mx == 0: continue
                 for ops in itertools.product(self.ALPHA, repeat=L):
                     cases.append({"max": mx, "miss": 5, "ops": list(ops)})
+        for mx, ent in ((1, 0), (2, 1), (2, None), (1, None)):
+            for L in range(1, 4):
+                for ops in itertools.product(self.FMALPHA, repeat=L):
+                    c = {"max": mx, "miss": 5, "ops": list(ops)}
+                    if ent is not None: c["entries"] = ent
+                    cases.append(c)
+        # every refusal of a flow_mod that names a LIVE buffer, for every way of releasing, with the table full / not full
+        for fmk in self.FMK:
+            for ent in (0, 1, 2, None):
+                for rel in ("use", "drop", "usectl"):
+                    r = {"op": rel, "id": 1, "via": "fm", "fmk": fmk}
+                    if rel == "usectl": r["dl"] = 9
+                    c = {"max": 3, "miss": 5, "ops": [{"op": "install", "inport": 3, "out": 4}, {"op": "arrive", "i": 2, "len": 20, "port": 1, "dl": None}, r,
+                                                      {"op": "use", "id": 1, "via": "po"}, {"op": "use", "id": 2, "via": "po"}]}
+                    if ent is not None: c["entries"] = ent
+                    cases.append(c)
+        for mx in self.BIG:
+            cases += self.big_cases(mx, (0, 1, 2) if mx < 1000 else (0, 2))
+        cases += self.alias_cases()
         return cases
 
-    def _rand_op(self, rng, mx, k, covered=()):
+    def _rand_id(self, rng, mx, k, arrivals, extra=()):
+        """a buffer named literally, or as 'the id handed out by step j'"""
+        if arrivals and rng.random() < 0.3: return {"ref": [rng.choice(arrivals), 0]}
+        return {"id": rng.choice([0, 1, 1, 2, 2, 3, mx, mx + 1, rng.randint(0, mx + 2)] + list(extra))}
+
+    def _rand_rw(self, rng, pre=True):
+        rw = {"post": [[rng.choice(["src", "dst"]), rng.randint(1, 9)] for _ in range(rng.randint(1, 2))],
+              "out": rng.choice([None] + [q for q in (1, 2, 3, 4)])}
+        if pre: rw["pre"] = [[rng.choice(["src", "dst"]), rng.randint(1, 9)] for _ in range(rng.choice([0, 0, 1]))]
+        return rw
+
+    def _rand_op(self, rng, mx, k, covered=(), arrivals=(), limited=False):
         r = rng.random()
         if r < 0.42:
             port = rng.randint(1, 4)
             # a port covered by an installed entry never sees a table miss: its packets reach the controller by output:CONTROLLER
             dls = [0, 1, 14, 128, 65535, rng.randint(0, 300)] + ([] if port in covered else [None, None])
-            return {"op": "arrive", "i": k, "len": rng.choice([14, 15, 20, 64, 128, 129, 200, rng.randint(14, 300)]), "port": port, "dl": rng.choice(dls)}
+            op = {"op": "arrive", "i": k, "len": rng.choice([14, 15, 20, 64, 128, 129, 200, rng.randint(14, 300)]), "port": port, "dl": rng.choice(dls)}
+            if op["dl"] is None and rng.random() < 0.15: op["rw"] = self._rand_rw(rng)      # a miss after output:TABLE
+            if op["dl"] is not None and rng.random() < 0.3:
+                op["rw"] = self._rand_rw(rng)
+                if not limited and rng.random() < 0.5: op["how"] = "entry"
+            return op
         if r < 0.435:
             return {"op": "fmbad", "id": rng.choice([0, 1, 1, 2, 2, 3, mx, mx + 1]), "why": rng.choice(["cmd", "act"])}
         if r < 0.45:
             p = rng.randint(1, 4)
             return {"op": "install", "inport": p, "out": rng.choice([q for q in (1, 2, 3, 4) if q != p])}
         if r < 0.52:
-            return {"op": "drop", "id": rng.choice([0, 1, 1, 2, 2, 3, mx, mx + 1, rng.randint(0, mx + 2)]), "via": rng.choice(["po", "po", "fm"])}
-        if r < 0.75:
-            return {"op": "use", "id": rng.choice([0, 1, 1, 2, 2, 3, mx, mx + 1, rng.randint(0, mx + 2), 0xfffffffe]), "via": rng.choice(["po", "po", "fm", "pod"])}
-        if r < 0.9:
-            return {"op": "usectl", "id": rng.choice([0, 1, 1, 2, 2, 3, mx, mx + 1, rng.randint(0, mx + 2)]), "dl": rng.choice([0, 5, 128, 65535, rng.randint(0, 300)]),
-                    "via": rng.choice(["po", "po", "fm"])}
-        return {"op": "setmiss", "n": rng.choice([0, 1, 14, 128, 65535, rng.randint(0, 300)])}
+            op = {"op": "drop", "via": rng.choice(["po", "po", "fm"])}
+            if rng.random() < 0.3: op["act"] = "badport"
+        elif r < 0.75:
+            op = {"op": "use", "via": rng.choice(["po", "po", "fm", "fm", "pod"])}
+        elif r < 0.9:
+            op = {"op": "usectl", "dl": rng.choice([0, 5, 128, 65535, rng.randint(0, 300)]), "via": rng.choice(["po", "po", "fm"])}
+            if rng.random() < 0.25: op["rw"] = self._rand_rw(rng, pre=False)
+        else:
+            return {"op": "setmiss", "n": rng.choice([0, 1, 14, 128, 65535, rng.randint(0, 300)])}
+        op.update(self._rand_id(rng, mx, k, arrivals, (0xfffffffe,) if op["op"] == "use" else ()))
+        if op["via"] == "fm" and rng.random() < 0.7: op["fmk"] = rng.choice(self.FMK)
+        return op
 
     def generate(self, rng, tier):
         n = 250 if tier == "quick" else 6000
         for _ in range(n):
             mx = rng.randint(0, 4)
             L = rng.choice([3, 8, 20, 60, rng.randint(1, 60)])
-            ops, covered = [], set()
+            ent = rng.choice([None, None, None, 0, 1, 2])
+            ops, covered, arrivals = [], set(), []
             for k in range(L):
-                op = self._rand_op(rng, mx, k, covered)
+                op = self._rand_op(rng, mx, k, covered, arrivals, ent is not None)
                 if op["op"] == "install": covered.add(op["inport"])
+                if op["op"] in ("arrive", "usectl"): arrivals.append(k)
                 ops.append(op)
-            yield {"max": mx, "miss": rng.choice([0, 5, 128, 65535]), "ops": ops}
+            c = {"max": mx, "miss": rng.choice([0, 5, 128, 65535]), "ops": ops}
+            if ent is not None: c["entries"] = ent
+            yield c
+        # larger pools, filled completely: sizes around a byte boundary and arbitrary ones
+        for _ in range(2 if tier == "quick" else 40):
+            mx = rng.choice([rng.randint(250, 262), rng.randint(5, 700), rng.randint(509, 515), rng.randint(5, 1100)])
+            for c in self.big_cases(mx, (rng.randint(0, 2),)): yield c
+        if tier != "quick":
+            for mx in (1024, 1025, 2049, 4097):
+                for c in self.big_cases(mx, (1,)): yield c
+
+    def shrink_candidates(self, case):
+        """drop one op (renumbering the steps that later ops refer to), fewer arrivals in a `fill`, a smaller pool"""
+        ops = case["ops"]
+        def renum(op, i):
+            op = dict(op)
+            if "ref" in op:
+                m, k = op["ref"]
+                if m == i: return None
+                if m > i: op["ref"] = [m - 1, k]
+            if "of" in op:
+                if op["of"] == i: return None
+                if op["of"] > i: op["of"] -= 1
+            return op
+        for i in range(len(ops)):
+            new = [renum(op, i) for j, op in enumerate(ops) if j != i]
+            c = copy.deepcopy(case); c["ops"] = [op for op in new if op is not None]
+            yield c
+        for i, op in enumerate(ops):
+            if op["op"] == "fill":
+                for v in descents(op["n"]):
+                    c = copy.deepcopy(case); c["ops"][i]["n"] = v; yield c
+            if op["op"] == "userefs":
+                step = op.get("step", 1) or 1
+                cnt = len(range(op["from"], op["to"], step))
+                for v in descents(cnt):       # keep the last v, or the first v
+                    c = copy.deepcopy(case); c["ops"][i]["from"] = op["from"] + (cnt - v) * step; yield c
+                    c = copy.deepcopy(case); c["ops"][i]["to"] = op["from"] + v * step; yield c
+        if case["max"] > 4:
+            for v in descents(case["max"]):
+                c = copy.deepcopy(case); c["max"] = v; yield c
+
+    # ---- the real switch
+    def _flow_mod(self, op, bid, act):
+        """a flow_mod naming buffer `bid`; its match never matches a harness frame (in_port 77 / a VLAN id on untagged frames)"""
+        of, k = self.of, op.get("fmk", "add")
+        kw = {"match": of.ofp_match(in_port=77), "command": of.OFPFC_ADD}
+        if k == "mod": kw["command"] = of.OFPFC_MODIFY
+        elif k == "mods": kw["command"] = of.OFPFC_MODIFY_STRICT
+        elif k == "ovl":      # overlaps every entry `install` made (same priority, in_port wildcarded) and asks to be refused then
+            kw.update(match=of.ofp_match(dl_vlan=99), priority=0x9000, flags=of.OFPFF_CHECK_OVERLAP)
+        elif k == "emerg": kw["flags"] = of.OFPFF_EMERG
+        elif k == "emerg_to": kw.update(flags=of.OFPFF_EMERG, idle_timeout=5)
+        elif k == "emerg_rem": kw["flags"] = of.OFPFF_EMERG | of.OFPFF_SEND_FLOW_REM
+        return of.ofp_flow_mod(buffer_id=bid, actions=act, **kw)
+
+    def _rw_actions(self, rws):
+        of = self.of
+        return [(of.ofp_action_dl_addr.set_src if w == "src" else of.ofp_action_dl_addr.set_dst)(self.EthAddr(mac(b))) for w, b in rws or ()]
+
+    def _ctl_actions(self, dl, rw):
+        of = self.of
+        rw = rw or {}
+        first = of.ofp_action_output(port=of.OFPP_TABLE) if dl is None else of.ofp_action_output(port=of.OFPP_CONTROLLER, max_len=dl)
+        act = self._rw_actions(rw.get("pre")) + [first] + self._rw_actions(rw.get("post"))
+        if rw.get("out") is not None: act.append(of.ofp_action_output(port=rw["out"]))
+        return act
 
     def impl(self, case):
         of = self.of
-        node = self.swnet.SwitchNode(ports=4, max_buffers=case["max"], miss_send_len=case["miss"])
+        kw = {} if case.get("entries") is None else {"max_entries": case["entries"]}
+        node = self.swnet.SwitchNode(ports=4, max_buffers=case["max"], miss_send_len=case["miss"], **kw)
         outs = []
-        def pins(replies, extra_ok=()):
+        def pins(replies):
             res = []
             for r in replies:
                 if isinstance(r, of.ofp_packet_in):
@@ -101,53 +340,82 @@ class C18(Check):
                 else:
                     res.append({"k": "other", "type": type(r).__name__})
             return res
-        for op in case["ops"]:
+        def split(rep, via):
+            """replies that are C13's subject, not ours: BAD_REQUEST/BUFFER_EMPTY|UNKNOWN for an id that is not stored, FLOW_MOD_FAILED
+            for a flow_mod whose table operation is refused.  -> (buffer errors, refusals, the rest)"""
+            berr = [r for r in rep if isinstance(r, of.ofp_error) and r.type == of.OFPET_BAD_REQUEST and r.code in (7, 8)]
+            ref = [r for r in rep if isinstance(r, of.ofp_error) and r.type == of.OFPET_FLOW_MOD_FAILED] if via == "fm" else []
+            return berr, ref, [r for r in rep if r not in berr and r not in ref]
+        def side(em):
+            return [[p, f.hex()] for p, f in em]
+        for op in expand(case):
             if op["op"] == "arrive":
                 fr = frame(op["i"], op["len"])
-                if op["dl"] is None:
+                rw = op.get("rw")
+                if op["dl"] is None and rw:
+                    # a table miss from inside an action list: a packet_out sends the frame to the TABLE, no entry matches; the
+                    # actions that follow go on rewriting it
+                    st, rep, em = node.send(of.ofp_packet_out(data=fr, in_port=op["port"], actions=self._ctl_actions(None, rw)))
+                elif op["dl"] is None:
                     st, rep, em = node.rx(fr, op["port"])
+                elif op.get("how") == "entry":
+                    # the same action list as a flow entry that the frame hits (installed for this frame, removed afterwards)
+                    m = dict(match=of.ofp_match(in_port=op["port"], dl_dst=self.EthAddr(fr[:6])), priority=0xa000)
+                    s1, r1, e1 = node.send(of.ofp_flow_mod(command=of.OFPFC_ADD, actions=self._ctl_actions(op["dl"], rw), **m))
+                    st, rep, em = node.rx(fr, op["port"])
+                    s2, r2, e2 = node.send(of.ofp_flow_mod(command=of.OFPFC_DELETE_STRICT, **m))
+                    if (s1, s2) != ("ok", "ok") or r1 or r2 or e1 or e2: st = "entry-setup:%s/%s/%d/%d" % (s1, s2, len(r1), len(r2))
                 else:
-                    st, rep, em = node.send(of.ofp_packet_out(data=fr, in_port=op["port"],
-                                                              actions=[of.ofp_action_output(port=of.OFPP_CONTROLLER, max_len=op["dl"])]))
+                    st, rep, em = node.send(of.ofp_packet_out(data=fr, in_port=op["port"], actions=self._ctl_actions(op["dl"], rw)))
                 o = pins(rep)
-                if st != "ok" or em or len(o) != 1: o = [{"k": "unexpected", "status": st, "emitted": len(em), "replies": o}]
+                if st != "ok" or (em and not rw) or len(o) != 1: o = [{"k": "unexpected", "status": st, "emitted": len(em), "replies": o}]
+                elif rw: o[0]["side"] = side(em)
                 outs.append(o[0])
             elif op["op"] == "usectl":
                 # release a buffer through an action list that sends the packet to the controller again
-                act = [of.ofp_action_output(port=of.OFPP_CONTROLLER, max_len=op["dl"])]
+                bid, rw = op_id(op, outs), op.get("rw")
+                act = self._ctl_actions(op["dl"], rw)
                 if op["via"] == "po":
-                    msg = of.ofp_packet_out(buffer_id=op["id"], in_port=of.OFPP_NONE, actions=act)
+                    msg = of.ofp_packet_out(buffer_id=bid, in_port=of.OFPP_NONE, actions=act)
                 else:
-                    msg = of.ofp_flow_mod(match=of.ofp_match(in_port=77), buffer_id=op["id"], actions=act, command=of.OFPFC_ADD)
+                    msg = self._flow_mod(op, bid, act)
                 st, rep, em = node.send(msg)
-                errs = [r for r in rep if isinstance(r, of.ofp_error) and r.type == of.OFPET_BAD_REQUEST and r.code in (7, 8)]
-                rest = [r for r in rep if r not in errs]
+                errs, ref, rest = split(rep, op["via"])
                 o = pins(rest)
-                if st != "ok" or em or len(errs) > 1 or (errs and rest) or len(o) > 1 or (o and o[0]["k"] != "pin"):
+                if st != "ok" or (em and not rw) or len(errs) > 1 or len(ref) > 1 or (errs and (rest or em)) or len(o) > 1 or (o and o[0]["k"] != "pin") or (em and not o):
                     outs.append({"k": "unexpected", "status": st, "emitted": len(em), "replies": pins(rep)})
-                elif o: outs.append(o[0])
+                elif o:
+                    if rw: o[0]["side"] = side(em)
+                    if ref: o[0]["refused"] = 1
+                    outs.append(o[0])
                 else: outs.append({"k": "none"})
             elif op["op"] in ("use", "drop"):
-                # "drop": an EMPTY action list — the packet is discarded, the buffer is released all the same
-                act = [of.ofp_action_output(port=of.OFPP_IN_PORT)] if op["op"] == "use" else []
+                # "drop": an EMPTY action list, or an output to a port the switch does not have — the packet is discarded, the
+                # buffer is released all the same
+                bid = op_id(op, outs)
+                if op["op"] == "use": act = [of.ofp_action_output(port=of.OFPP_IN_PORT)]
+                elif op.get("act") == "badport": act = [of.ofp_action_output(port=9)]
+                else: act = []
                 if op["via"] == "po":
-                    msg = of.ofp_packet_out(buffer_id=op["id"], in_port=of.OFPP_NONE, actions=act)
+                    msg = of.ofp_packet_out(buffer_id=bid, in_port=of.OFPP_NONE, actions=act)
                 elif op["via"] == "pod":
                     # raw bytes: a packet_out naming the buffer AND carrying (other) packet data — OpenFlow 1.0: data is only
                     # meaningful when buffer_id is -1, so this uses (emits and frees) the buffered packet
                     b = bytearray(of.ofp_packet_out(in_port=of.OFPP_NONE, actions=act, data=frame(99, 20)).pack())
-                    b[8:12] = (op["id"] & 0xffffffff).to_bytes(4, "big")
+                    b[8:12] = (bid & 0xffffffff).to_bytes(4, "big")
                     msg = bytes(b)
-                else:    # a flow_mod naming the buffer; its match never matches harness frames (in_port 77)
-                    msg = of.ofp_flow_mod(match=of.ofp_match(in_port=77), buffer_id=op["id"], actions=act, command=of.OFPFC_ADD)
+                else:    # a flow_mod naming the buffer
+                    msg = self._flow_mod(op, bid, act)
                 st, rep, em = node.send(msg)
-                # a buffer id that is not stored is answered with BAD_REQUEST / BUFFER_EMPTY(7) or BUFFER_UNKNOWN(8) (that reply
-                # is C13's subject); for this property what counts is that no frame is emitted and nothing is freed
-                errs = [r for r in rep if isinstance(r, of.ofp_error) and r.type == of.OFPET_BAD_REQUEST and r.code in (7, 8)]
-                if st != "ok" or len(errs) != len(rep) or len(rep) > 1 or (rep and em) or len(em) > 1:
+                # a buffer id that is not stored is answered with BAD_REQUEST / BUFFER_EMPTY(7) or BUFFER_UNKNOWN(8), a flow_mod the table
+                # refuses with FLOW_MOD_FAILED (those replies are C13's subject); for this property what counts is which frame is
+                # emitted and what is freed
+                errs, ref, rest = split(rep, op["via"])
+                if st != "ok" or rest or len(errs) > 1 or len(ref) > 1 or (errs and em) or len(em) > 1:
                     outs.append({"k": "unexpected", "status": st, "emitted": len(em), "replies": pins(rep)})
                 elif em: outs.append({"k": "emit", "fr": em[0][1].hex(), "port": em[0][0]})
                 else: outs.append({"k": "none"})
+                if ref: outs[-1]["refused"] = 1
             elif op["op"] == "fmbad":
                 # a flow_mod that NAMES a buffer but is refused before it is carried out (unknown command / an action type the
                 # switch cannot execute): answered with an error, nothing is emitted and the buffer stays held
@@ -161,70 +429,129 @@ class C18(Check):
                 outs.append({"k": "none"} if ok else {"k": "unexpected", "status": st, "emitted": len(em), "replies": pins(rep)})
             elif op["op"] == "install":
                 # a flow_mod WITHOUT a buffer id installs an entry that covers every packet of one ingress port (and would send it
-                # somewhere else than a later buffer release says): the pool must not care what the table holds
+                # somewhere else than a later buffer release says): the pool must not care what the table holds (nor whether the
+                # table took the entry: with a limited table the answer may be FLOW_MOD_FAILED)
                 st, rep, em = node.send(of.ofp_flow_mod(match=of.ofp_match(in_port=op["inport"]), priority=0x9000, command=of.OFPFC_ADD,
                                                         actions=[of.ofp_action_output(port=op["out"])]))
-                outs.append({"k": "none"} if (st == "ok" and not rep and not em) else {"k": "unexpected", "status": st, "emitted": len(em), "replies": pins(rep)})
+                errs, ref, rest = split(rep, "fm")
+                quiet = st == "ok" and not rest and not errs and not em and len(ref) <= (1 if case.get("entries") is not None else 0)
+                outs.append({"k": "none"} if quiet else {"k": "unexpected", "status": st, "emitted": len(em), "replies": pins(rep)})
             else:
                 st, rep, em = node.send(of.ofp_set_config(miss_send_len=op["n"]))
                 outs.append({"k": "none"} if (st == "ok" and not rep and not em) else {"k": "unexpected", "status": st})
-        slots = [0 if b is None else 1 for b in node.sw._packet_buffer]
-        return {"outs": outs, "stored": sum(slots), "slots": slots}
+        return {"outs": outs, **self._stored(node, case)}
+
+    def _stored(self, node, case):
+        """how many packets the switch holds at the end.  Read from the slot list when the switch has one (the model is compared
+        slot by slot then); otherwise measured from outside: packets that miss the table are buffered exactly while a buffer is free"""
+        pb = getattr(node.sw, "_packet_buffer", None)
+        if isinstance(pb, list):
+            slots = [0 if b is None else 1 for b in pb]
+            return {"stored": sum(slots), "slots": slots}
+        free = 0
+        for k in range(case["max"] + 1):
+            st, rep, em = node.send(self.of.ofp_packet_out(data=frame(200 + k, 14), in_port=1, actions=[self.of.ofp_action_output(port=self.of.OFPP_CONTROLLER, max_len=0)]))
+            if len(rep) != 1 or getattr(rep[0], "buffer_id", None) is None: break
+            free += 1
+        self._noslots = True
+        return {"stored": case["max"] - free, "slots": None}
 
     def model_request(self, case):
+        if any("ref" in op or op["op"] == "userefs" for op in case["ops"]): return None      # needs the ids the switch handed out
+        return self._model_request(case, None)
+
+    def model_request2(self, case, obs):
+        """steps that name 'the id handed out by step k' are put to the model with the id the switch handed out there"""
+        if len(obs.get("outs", ())) != len(expand(case)): return None
+        return self._model_request(case, obs["outs"])
+
+    def _model_request(self, case, outs):
         ops = []
-        for op in case["ops"]:
-            if op["op"] == "arrive": ops.append({"op": "arrive", "fr": frame(op["i"], op["len"]).hex(), "port": op["port"], "dl": op["dl"]})
-            elif op["op"] == "use": ops.append({"op": "use", "id": op["id"]})
-            elif op["op"] == "drop": ops.append({"op": "drop", "id": op["id"]})
-            elif op["op"] == "usectl": ops.append({"op": "usectl", "id": op["id"], "dl": op["dl"]})
+        for op in expand(case):
+            if op["op"] == "arrive": ops.append({"op": "arrive", "fr": rewrite(frame(op["i"], op["len"]), (op.get("rw") or {}).get("pre")).hex(), "port": op["port"], "dl": op["dl"]})
+            elif op["op"] == "use": ops.append({"op": "use", "id": op_id(op, outs)})
+            elif op["op"] == "drop": ops.append({"op": "drop", "id": op_id(op, outs)})
+            elif op["op"] == "usectl": ops.append({"op": "usectl", "id": op_id(op, outs), "dl": op["dl"]})
             elif op["op"] in ("install", "fmbad"): ops.append({"op": "other"})
             else: ops.append({"op": "setmiss", "n": op["n"]})
         return {"max": case["max"], "miss": case["miss"], "ops": ops}
 
+    def model_obs(self, case, resp):
+        if self._noslots and isinstance(resp, dict) and "slots" in resp: resp = dict(resp, slots=None)      # the switch shows no slot list to compare with
+        return resp
+
+    def impl_view(self, case, obs):
+        """what the model answers: the packet-ins, the frames a release emits, the slot list.  What the OTHER actions of an action list
+        emitted (`side`) and whether the table refused a flow_mod (`refused`) are outside the model — the oracle looks at them"""
+        return {"outs": [{k: v for k, v in o.items() if k not in ("side", "refused")} for o in obs["outs"]], "stored": obs["stored"], "slots": obs["slots"]}
+
     # the property on the implementation's observables: an abstract id -> frame map with capacity
     def oracle(self, case, obs):
         live, miss = {}, case["miss"]
-        if len(obs["outs"]) != len(case["ops"]): return "harness: output count"
-        for n, (op, o) in enumerate(zip(case["ops"], obs["outs"])):
+        prims = expand(case)
+        if len(obs["outs"]) != len(prims): return "harness: output count"
+        most = 0
+        def pin_check(o, fr, port, dl, freed=None):
+            """the packet-in for frame `fr`: form, id not outstanding, bound.  Returns a failure or None"""
+            if o["total"] != len(fr): return "packet-in total_len %d != frame length %d" % (o["total"], len(fr))
+            bid = o["bid"]
+            if bid is None:
+                if len(live) < case["max"]: return "no buffer id although %d of %d buffers are in use" % (len(live), case["max"])
+                if o["data"] != fr.hex(): return "unbuffered packet-in does not carry the whole frame"
+            else:
+                if bid in live: return "buffer id %d handed out twice" % bid
+                if freed is None and len(live) >= case["max"]: return "more than max_buffers packets stored"
+                if o["data"] != fr[:dl].hex(): return "buffered packet-in data is not the first min(len, %d) bytes" % dl
+            return None
+        def wrong_emit(bid, o):
+            fr, port, later = live[bid]
+            if o["k"] == "emit" and o["fr"] == fr.hex() and o["port"] == port: return None
+            if later is not None and o["k"] == "emit" and o["fr"] == later.hex():
+                return "using live buffer %d emitted the packet as rewritten by actions that ran AFTER it was buffered, not the packet the id was handed out for" % bid
+            return "using live buffer %d did not emit its packet" % bid
+        for n, (op, o) in enumerate(zip(prims, obs["outs"])):
             if o["k"] == "unexpected": return "step %d %s: %s" % (n, op["op"], o.get("status"))
             if op["op"] == "arrive":
-                fr = frame(op["i"], op["len"]); dl = miss if op["dl"] is None else op["dl"]
+                rw = op.get("rw") or {}
+                fr = rewrite(frame(op["i"], op["len"]), rw.get("pre")); dl = miss if op["dl"] is None else op["dl"]
+                fr2 = rewrite(fr, rw.get("post"))
                 if o["k"] != "pin": return "arrival produced no packet-in"
                 if o["port"] != op["port"]: return "packet-in in_port wrong"
-                if o["total"] != len(fr): return "packet-in total_len %d != frame length %d" % (o["total"], len(fr))
-                bid = o["bid"]
-                if bid is None:
-                    if len(live) < case["max"]: return "no buffer id although %d of %d buffers are in use" % (len(live), case["max"])
-                    if o["data"] != fr.hex(): return "unbuffered packet-in does not carry the whole frame"
-                else:
-                    if bid in live: return "buffer id %d handed out twice" % bid
-                    if len(live) >= case["max"]: return "more than max_buffers packets stored"
-                    if o["data"] != fr[:dl].hex(): return "buffered packet-in data is not the first min(len, %d) bytes" % dl
-                    live[bid] = (fr, op["port"])
+                f = pin_check(o, fr, op["port"], dl)
+                if f: return f
+                # (what the actions after the output emit — `side` — is C12's subject; here: the packet-in and what the id stands for)
+                if o["bid"] is not None: live[o["bid"]] = (fr, op["port"], fr2 if fr2 != fr else None)
             elif op["op"] == "usectl":
-                if op["id"] in live:
-                    fr, port = live[op["id"]]
-                    if o["k"] != "pin": return "releasing live buffer %d to the controller produced no packet-in" % op["id"]
+                oid = op_id(op, obs["outs"])
+                if oid in live:
+                    fr, port, later = live[oid]
+                    rw = op.get("rw") or {}
+                    if o["k"] != "pin": return "releasing live buffer %d to the controller produced no packet-in" % oid
                     if o["port"] != port or o["total"] != len(fr): return "re-announced packet-in has wrong in_port/total_len"
-                    bid = o["bid"]
-                    if bid is None:
-                        if len(live) < case["max"]: return "no buffer id although %d of %d buffers are in use" % (len(live), case["max"])
-                        if o["data"] != fr.hex(): return "unbuffered packet-in does not carry the whole frame"
-                    else:
-                        if bid in live: return "buffer id %d handed out twice" % bid
-                        if o["data"] != fr[:op["dl"]].hex(): return "buffered packet-in data is not the first min(len, %d) bytes" % op["dl"]
-                    del live[op["id"]]
-                    if bid is not None: live[bid] = (fr, port)
+                    if later is not None and o["data"] in (later.hex(), later[:op["dl"]].hex()) and o["data"] not in (fr.hex(), fr[:op["dl"]].hex()):
+                        return "using live buffer %d emitted the packet as rewritten by actions that ran AFTER it was buffered, not the packet the id was handed out for" % oid
+                    f = pin_check(o, fr, port, op["dl"], freed=oid)
+                    if f: return f
+                    del live[oid]
+                    # (diagnosis only) what an object shared with the action list would look like by now
+                    alt = rewrite(later if later is not None else fr, rw.get("post"))
+                    if o["bid"] is not None: live[o["bid"]] = (fr, port, alt if alt != fr else None)
+                    if o.get("refused"): self.stats["refused_flow_mods_naming_a_live_buffer"] += 1
                 else:
                     if o["k"] != "none": return "using unknown/used buffer id emitted a packet"
             elif op["op"] == "drop":
-                live.pop(op["id"], None)              # released whether or not anything is emitted (checked by the stored count and by later uses)
+                oid = op_id(op, obs["outs"])
+                if oid in live and o.get("refused"): self.stats["refused_flow_mods_naming_a_live_buffer"] += 1
+                live.pop(oid, None)              # released whether or not anything is emitted (checked by the stored count and by later uses)
                 if o["k"] != "none": return "a packet-out/flow-mod with an empty action list emitted a packet"
             elif op["op"] == "use":
-                if op["id"] in live:
-                    fr, port = live.pop(op["id"])
-                    if o["k"] != "emit" or o["fr"] != fr.hex() or o["port"] != port: return "using live buffer %d did not emit its packet" % op["id"]
+                oid = op_id(op, obs["outs"])
+                if oid in live:
+                    f = wrong_emit(oid, o)
+                    if f: return f
+                    if live[oid][2] is not None: self.stats["releases_after_later_rewrite"] += 1
+                    if o.get("refused"): self.stats["refused_flow_mods_naming_a_live_buffer"] += 1
+                    del live[oid]
                 else:
                     if o["k"] != "none": return "using unknown/used buffer id emitted a packet"
             elif op["op"] == "install":
@@ -234,8 +561,10 @@ class C18(Check):
             else:
                 miss = op["n"]
                 if o["k"] != "none": return "set_config produced output"
+            most = max(most, len(live))
         if obs["stored"] != len(live): return "stored packets %d != outstanding ids %d" % (obs["stored"], len(live))
         if obs["stored"] > case["max"]: return "stored exceeds max_buffers"
+        self.stats["largest_number_outstanding"] = max(self.stats["largest_number_outstanding"], most)
         return None
 
     def finding_key(self, case, obs, failure):
@@ -245,5 +574,8 @@ class C18(Check):
     def nontrivial(self, case, obs):
         ids = [o.get("bid") for o in obs["outs"] if o.get("k") == "pin"]
         return any(o.get("k") == "emit" for o in obs["outs"]) or (None in ids and case["max"] > 0)
+
+    def extra_evidence(self):
+        return {"c18_counts": dict(self.stats)}
 
 CHECK = C18
